@@ -334,6 +334,13 @@ func c02History(t *testing.T, rec *vlib.Rec, idx int) {
 	}()
 	h := &c01Hist{t: t, rec: rec, idx: idx, r: r, n: n, apiUU: map[string][]byte{}, looped: map[string]map[string]bool{}, events: map[string]int{},
 		adjIn: map[string]map[simRouteKey]simRoute{}, local: map[string]simRoute{}}
+	if r.IntN(2) == 0 {
+		_, yn, un := simInstallYield(r.Uint64(), false)
+		defer func() {
+			rec.Count("yield_points_passed", int(yn()))
+			un()
+		}()
+	}
 	w := &c02Watch{best: map[simRouteKey]string{}}
 	ctx, cancel := context.WithCancel(context.Background())
 	defer cancel()
@@ -369,7 +376,7 @@ func c02History(t *testing.T, rec *vlib.Rec, idx int) {
 	next := 5 + r.IntN(15)
 	for i := 0; i < nEvents; i++ {
 		// delete-peer in the middle of an UPDATE burst is a dedicated event
-		if r.IntN(60) == 0 {
+		if r.IntN(40) == 0 {
 			ups := h.upPeers()
 			if len(ups) > 1 {
 				p := ups[r.IntN(len(ups))]
@@ -377,17 +384,27 @@ func c02History(t *testing.T, rec *vlib.Rec, idx int) {
 				n.s.DeletePeer(context.Background(), &api.DeletePeerRequest{Address: p.spec.Addr})
 				p.up = false
 				delete(h.adjIn, p.spec.Addr)
-				p.sp.close()
 				h.logf("delete-peer %s", p.spec.Addr)
 				h.events["delete-peer"]++
-				// the peer is gone for good: take it out of the history
-				var rest []*c01Peer
-				for _, q := range h.peers {
-					if q != p {
-						rest = append(rest, q)
+				if r.IntN(2) == 0 {
+					// ... and configured again at once, while UPDATEs of the old session may still be in
+					// flight inside gobgp: nothing of the ended session may surface under the new peer
+					if n.s.AddPeer(context.Background(), &api.AddPeerRequest{Peer: p.spec.apiPeer()}) == nil {
+						h.logf("re-add-peer %s", p.spec.Addr)
+						h.events["re-add-peer"]++
 					}
+					p.sp.close()
+				} else {
+					p.sp.close()
+					// the peer is gone for good: take it out of the history
+					var rest []*c01Peer
+					for _, q := range h.peers {
+						if q != p {
+							rest = append(rest, q)
+						}
+					}
+					h.peers = rest
 				}
-				h.peers = rest
 				synctest.Wait()
 			}
 		}
